@@ -1,2 +1,76 @@
-(** C06 — placeholder until the theorems are in (Text/ParseProofs.v) *)
-From PV Require Import Text.MarkerParse.
+(** C06 — parsing is total and every error is renderable, for every input and every answer of the
+    dependencies (Unicode classes, PEP 440 text syntax, URL parsing, environment).
+
+    Totality itself is by construction: the model's parsers are total Gallina functions, every
+    `expect` / `unreachable!` / out-of-fuel site of the code is the explicit error kind [EPanic], and the
+    theorems show that [EPanic] is never returned.  [renderable s e] is what `Pep508Error`'s Display needs
+    of a span: the start is a character boundary within the input or at its end, at the end the length is
+    at most 1, otherwise the end of the span is a character boundary too. *)
+From Coq Require Import List NArith.
+Import ListNotations.
+Open Scope N_scope.
+From PV Require Import Text.Cursor Text.MarkerParse Text.ReqParse Text.SpanBase Text.SpanMarker Text.SpanReq.
+
+Section C06.
+Variables ws alpha alnum : N -> bool.
+Variable kw : list (text * mvalue).
+Variable vparse : text -> option Marker.Expr.rawversion.
+Variables specpat specver : Marker.Expr.vop -> text -> option (Marker.Expr.vop * list N).
+Variables pv pfv : N.
+Variable specparse : text -> option spec.
+Variable url_oracle : bool -> text -> option text.
+Variable getenv : text -> option text.
+Variable project_root : text.
+Variables verbatim ext : bool.
+
+(** MarkerTree::from_str / parse_reporter *)
+Theorem C06_marker_tree (s : text) (e : perr) :
+  parse_markers ws alpha alnum kw vparse specpat specver pv pfv s = PErr e -> renderable s e /\ no_panic e.
+Proof. exact (parse_markers_renderable ws alpha alnum kw vparse specpat specver pv pfv s e). Qed.
+
+(** MarkerExpression::from_str / parse_reporter *)
+Theorem C06_marker_expression (s : text) (e : perr) :
+  parse_expression ws alpha kw vparse specpat specver s = PErr e -> renderable s e /\ no_panic e.
+Proof. exact (parse_expression_renderable ws alpha kw vparse specpat specver s e). Qed.
+
+(** Requirement::<Url | VerbatimUrl>::from_str / parse / parse_reporter, both feature configurations *)
+Theorem C06_requirement (s : text) (e : perr) :
+  parse_requirement ws alpha alnum kw vparse specpat specver pv pfv specparse url_oracle getenv project_root verbatim ext s = PErr e ->
+  renderable s e /\ no_panic e.
+Proof.
+  exact (parse_requirement_renderable ws alpha alnum kw vparse specpat specver pv pfv specparse url_oracle getenv project_root verbatim ext
+           (parse_markers_cursor_ok ws alpha alnum kw vparse specpat specver pv pfv) s e).
+Qed.
+
+(** Extras::parse *)
+Theorem C06_extras (s : text) (e : perr) :
+  parse_extras_text ws s = PErr e -> renderable s e /\ no_panic e.
+Proof. exact (parse_extras_text_renderable ws s e). Qed.
+
+(** UnnamedRequirement::from_str / parse *)
+Theorem C06_unnamed (s : text) (e : perr) :
+  parse_unnamed ws alpha alnum kw vparse specpat specver pv pfv url_oracle getenv project_root ext s = PErr e ->
+  renderable s e /\ no_panic e.
+Proof.
+  exact (parse_unnamed_renderable ws alpha alnum kw vparse specpat specver pv pfv url_oracle getenv project_root ext
+           (parse_markers_cursor_ok ws alpha alnum kw vparse specpat specver pv pfv) s e).
+Qed.
+
+(** the fuel of the in-list splitter never runs out *)
+Theorem C06_version_list_fuel (k : nat) (s : text) :
+  version_list ws vparse (S (length s) + k) (c_new s) = version_list ws vparse (S (length s)) (c_new s).
+Proof. exact (version_list_fuel_new ws vparse k s). Qed.
+End C06.
+
+Print Assumptions C06_marker_tree.
+Print Assumptions C06_marker_expression.
+Print Assumptions C06_requirement.
+Print Assumptions C06_extras.
+Print Assumptions C06_unnamed.
+Print Assumptions C06_version_list_fuel.
+
+(** non-vacuity: errors do occur, and they are as stated *)
+Example C06_nonvacuous :
+  parse_extras_text (fun c => N.eqb c 32) [91; 97; 32; 233]%N =
+  PErr {| e_kind := EExtrasSep; e_start := 3; e_len := 2 |}.
+Proof. vm_compute. reflexivity. Qed.
